@@ -430,8 +430,13 @@ class _resolve_called_lambdas(ast.NodeTransformer):
         if isinstance(node.func, ast.Lambda):
             lambda_node = node.func
 
-            # Ensure the lambda has arguments and a body
-            if len(lambda_node.args.args) == len(node.args):
+            # Only a call that binds plain positional parameters one-to-one is resolved here
+            a = lambda_node.args
+            plain_parameters = not (a.posonlyargs or a.kwonlyargs or a.vararg or a.kwarg)
+            plain_arguments = len(node.keywords) == 0 and not any(
+                isinstance(arg, ast.Starred) for arg in node.args
+            )
+            if plain_parameters and plain_arguments and len(a.args) == len(node.args):
                 arg_map = {
                     lambda_node.args.args[i].arg: self.visit(node.args[i])
                     for i in range(len(lambda_node.args.args))
